@@ -118,6 +118,8 @@ def fixed_corpus():
     # every combination of the crossed derived factor has the same number (2) of source completions, partial round
     add(D([A2, {'name': 'C', 'levels': ['c0', 'c1', 'c2', 'c3']},
            within('G', ['C'], preds=(('table', [['c0'], ['c1']]), 'else'))], cross('ACG', 'G', [['MinimumTrials', 3]])))
+    add(D([{'name': 'C', 'levels': ['c0', 'c1', 'c2', 'c3']}, within('G', ['C'], preds=(('table', [['c0'], ['c1']]), 'else'))],
+          cross('CG', 'G', [['MinimumTrials', 3]])))      # 48 sequences
     # a two-trial preamble over a 3-level factor (3**2 preambles, not 3*2)
     add(D([A3, window('W', 'A', 3)], cross('AW', 'W')))
     # a window wider than the whole sequence (two trials), starting early: shifted source indices run past the grid
